@@ -639,7 +639,7 @@ def bounds(tier):
         "depth_full_alphabet": sorted({c["depth"] for c in cf if c["alpha"] == "full"}),
         "depth_core_alphabet": sorted({c["depth"] for c in cf if c["alpha"] == "core"}),
         "core_alphabet_sizes": sorted({len(alphabet(c)) for c in cf if c["alpha"] == "core"}),
-        "last_level": "quick: set_data/edit/reset/clear/update are not run as the last step of a maximal history (no oracle beyond 'does not raise'); thorough: all ops at every level" if tier == "quick" else "all ops at every level",
+        "last_level": "quick: set_data/edit/reset/clear/update are not run as the last step of a maximal history (no oracle beyond 'does not raise'); thorough: all ops at every level" if tier == "quick" else "all ops at every level, except in the depth-4 full-alphabet configurations, whose last level omits set_data/edit/reset/clear/update",
         "live_objects": "t, inv, cp, d2 (d2 derived from inv or cp: derivation depth 2)",
         "probes_per_call": 6,
         "grid_menu": ["g0", "gA (2n-1, same domain)", "gAx", "gB (other align_corners)", "gC (other size/spacing/centre)", "gD (disp target: current grid resampled to another size)"],
@@ -1142,6 +1142,14 @@ class Stepper:
                 rt.curv, rt.acc = 0.0, 0.0
                 self.define(rt)
             self.touch_followers(desync=(kind == "callable"))
+            if kind == "callable":
+                # reset_parameters() zeroes the predicted-parameter buffer p (members: the predicted tensors) IN PLACE; shallow
+                # copies made since the last update still hold that very tensor, so what their data() returns is no longer
+                # their prediction until they are updated themselves (objects linked to them: update()-first contract)
+                for w in SLOTS[1:]:
+                    r = W.rec[w]
+                    if r is not None and r.kind == "callable" and r.mode != "linked":
+                        r.p_fresh = False
             self.category = "mutate"
             return
 
@@ -1597,9 +1605,10 @@ def run_shard(shard) -> Acc:
         return acc
     seen = set()
     frontier = []
-    # quick tier: operations whose only oracle is "does not raise" are not executed as the LAST step of a history of maximal
-    # length (they are executed, and followed by observers, at every earlier position; the thorough tier runs them everywhere)
-    last_skip = bool(cfg.get("lean"))
+    # quick tier, and the depth-4 configurations of the thorough tier: operations whose only oracle is "does not raise" are not
+    # executed as the LAST step of a history of maximal length (they are executed, and followed by observers, at every earlier
+    # position; the depth-3 and core-alphabet configurations of the thorough tier run them everywhere)
+    last_skip = bool(cfg.get("lean")) or (cfg.get("alpha") == "full" and maxd >= 4)
 
     def extend(hist, op):
         """Replay hist on fresh objects, apply op with judgement; returns the new state key or None."""
